@@ -84,7 +84,9 @@ impl writer::Normalized for Rec {}
 pub fn classify<Wl>(e: &Ev<Wl>) -> String {
     match e {
         Ev::Started => "started".into(),
-        Ev::ParsingFinished { .. } => "parsing_finished".into(),
+        Ev::ParsingFinished { features, rules, scenarios, steps, parser_errors } => {
+            format!("parsing_finished[f={features},r={rules},sc={scenarios},st={steps},err={parser_errors}]")
+        }
         Ev::Finished => "finished".into(),
         Ev::Feature(f, fe) => format!("feature[{}]:{}", f.name, match fe {
             event::Feature::Started => "started".to_owned(),
